@@ -22,10 +22,13 @@ pub struct G {
     pub up: K, pub admin: K, pub debt_acc: K, pub rew_acc: K, pub cmgr: K, pub payer: K, pub buyer: K, pub relayer: K,
     pub users: Vec<K>, pub nodes: Vec<K>, pub svcs: Vec<K>, pub mgrs: Vec<K>, pub recips: Vec<Vec<(K, u16)>>,
     pub eps: Vec<Ep>, pub clock: u64, pub fills: K, pub universe: Vec<K>, pub paused: bool, pub swap: K,
-    pub calc_grace: u64, pub init_grace: u64, pub min_epochs: u64, pub next_sweep: u64, pub big: bool,
+    pub calc_grace: u64, pub init_grace: u64, pub min_epochs: u64, pub next_sweep: u64, pub big: bool, pub prev: Vec<K>,
 }
 
-pub async fn bootstrap(s: &mut Sim, rng: &mut Rng) -> G {
+pub async fn bootstrap(s: &mut Sim, rng: &mut Rng) -> G { let skip = if rng.chance(1, 4) { Some(rng.below(11) as usize) } else { None }; bootstrap_with(s, rng, skip).await }
+
+/// `skip`: index of the one configuration parameter left unconfigured (None = complete configuration)
+pub async fn bootstrap_with(s: &mut Sim, rng: &mut Rng, skip: Option<usize>) -> G {
     let up = K::User(UPGRADE_AUTHORITY);
     let users: Vec<K> = (10..22).map(K::User).collect();
     for u in &users { s.op(Op::Airdrop(u.clone(), 500_000_000_000)).await; }
@@ -35,14 +38,14 @@ pub async fn bootstrap(s: &mut Sim, rng: &mut Rng) -> G {
     let mut g = G { up: up.clone(), admin: users[0].clone(), debt_acc: users[1].clone(), rew_acc: users[2].clone(), cmgr: users[3].clone(),
         payer: users[4].clone(), buyer: users[5].clone(), relayer: users[6].clone(), users: users.clone(), nodes: nodes.clone(), svcs: svcs.clone(),
         mgrs: vec![], recips: vec![], eps: vec![], clock: 1_700_000_000, fills: fills.clone(), universe: vec![], paused: true, swap: K::SwapMock,
-        calc_grace: 0, init_grace: 0, min_epochs: 0, next_sweep: 0, big: rng.chance(1, 4) };
+        calc_grace: 0, init_grace: 0, min_epochs: 0, next_sweep: 0, big: rng.chance(1, 3), prev: vec![] };
     for n in &nodes { s.reg_node(n); }
     for v in &svcs { s.reg_svc(v); }
     for e in 0..6 { s.reg_epoch(e); }
     s.op(Op::SetClock(g.clock)).await;
     let ix = s.rd_initialize_program(&g.payer); s.op(tx(vec![ix])).await;
     let ix = s.rd_set_admin(&up, &g.admin); s.op(tx(vec![ix])).await;
-    g.calc_grace = rng.range(1, 3); g.init_grace = rng.range(1, 3); g.min_epochs = rng.range(1, 2);
+    g.calc_grace = if rng.chance(1, 10) { 1440 } else { rng.range(1, 3) }; g.init_grace = if rng.chance(1, 6) { *rng.pick(&[1092u64, 1093, 2000, 2880]) } else { rng.range(1, 3) }; g.min_epochs = rng.range(1, 2);
     let cbr_init = *rng.pick(&[1u32, 100_000_000, 500_000_000, 1_000_000_000]);
     let cbr_lim = cbr_init.max(*rng.pick(&[100_000_000u32, 900_000_000, 1_000_000_000]));
     let settings = vec![
@@ -51,8 +54,8 @@ pub async fn bootstrap(s: &mut Sim, rng: &mut Rng) -> G {
         RdSetting::InitGrace(g.init_grace as u16), RdSetting::BurnRate(cbr_lim, rng.range(1, 3) as u32, rng.range(3, 6) as u32, Some(cbr_init)),
         RdSetting::RelayLamports(*rng.pick(&[5001u32, 10_000, 100_000, 3_000_000_000, u32::MAX])), RdSetting::MinEpochs(g.min_epochs as u8),
         RdSetting::FeatureActivation(rng.range(1, 2)), RdSetting::Paused(false) ];
-    for st in settings {
-        if rng.chance(1, 40) { continue; }   // sometimes leave a parameter unconfigured
+    for (si, st) in settings.into_iter().enumerate() {
+        if skip == Some(si) { continue; }
         if matches!(st, RdSetting::Paused(false)) { g.paused = false; }
         let ix = s.rd_configure(&g.admin, st); s.op(tx(vec![ix])).await;
     }
@@ -96,7 +99,7 @@ pub async fn bootstrap(s: &mut Sim, rng: &mut Rng) -> G {
 }
 
 fn debt_tree(s: &mut Sim, rng: &mut Rng, g: &G) -> (Tree, u64) {
-    let n = if g.big { rng.range(1, 40) } else { rng.range(1, 4) } as usize;
+    let n = if g.big { rng.range(8, 40) } else { rng.range(1, 4) } as usize;
     let mut leaves = vec![]; let mut total = 0u64;
     for _ in 0..n {
         let amount = match rng.below(10) { 0 => 0, 1 => 1, 2 => rng.range(1, 100) * 1_000_000_000, _ => rng.range(1, 3_000_000_000) };
@@ -106,7 +109,7 @@ fn debt_tree(s: &mut Sim, rng: &mut Rng, g: &G) -> (Tree, u64) {
     (s.def_tree(0, leaves), total)
 }
 fn reward_tree(s: &mut Sim, rng: &mut Rng, g: &G) -> Tree {
-    let n = if g.big { rng.range(1, 20) } else { rng.range(1, 4) } as usize;
+    let n = if g.big { rng.range(8, 20) } else { rng.range(1, 4) } as usize;
     let mut rest = 1_000_000_000u32; let mut leaves = vec![];
     for i in 0..n {
         let us = if i + 1 == n && rng.chance(3, 4) { rest } else { rng.below(rest as u64 + 1) as u32 };
@@ -137,11 +140,11 @@ async fn run(mut s: Sim, mut rng: Rng, len: usize) -> Sim {
     let mut g = bootstrap(&mut s, &mut rng).await;
     for _ in 0..len {
         if rng.chance(6, 10) && driver_step(&mut s, &mut rng, &mut g).await { continue; }
-        let r = rng.below(100);
+        let r = rng.below(106);
         let ne = g.eps.len();
         let pick_ep = |rng: &mut Rng, n: usize| if n == 0 { 0 } else { rng.below(n as u64) as usize };
         let honest = match r {
-            0..=7 => { g.clock += match rng.below(4) { 0 => *rng.pick(&[1u64, 59, 60, 61]), 1 => g.calc_grace * 60 - 1, 2 => g.calc_grace.max(g.init_grace) * 60, _ => 3600 };
+            0..=7 => { g.clock += match rng.below(6) { 0 => *rng.pick(&[1u64, 59, 60, 61]), 1 => g.calc_grace * 60 - 1, 2 => g.calc_grace.max(g.init_grace) * 60, 3 => g.init_grace * 60 - 1, 4 => 65_536, _ => 3600 };
                        s.op(Op::SetClock(g.clock)).await; continue; }
             8..=12 => { // new epoch
                 if rng.chance(1, 5) { let amt = rng.range(1, 5_000_000); s.op(Op::MintTo(K::Ata(b(&K::RdJournal), b(&K::Mint)), amt)).await; }
@@ -240,10 +243,11 @@ async fn run(mut s: Sim, mut rng: Rng, len: usize) -> Sim {
                     s.rd_configure(&who, st) }
             92 => { // rotate a role
                 let nk = rng.pick(&g.users).clone();
-                match rng.below(3) { 0 => { let ix = s.rd_configure(&g.admin, RdSetting::DebtAccountant(nk.clone())); if s.op(tx(vec![ix])).await { g.debt_acc = nk; } }
-                                      1 => { let ix = s.rd_configure(&g.admin, RdSetting::RewardsAccountant(nk.clone())); if s.op(tx(vec![ix])).await { g.rew_acc = nk; } }
-                                      _ => { let ix = s.rd_set_admin(&g.up, &nk); if s.op(tx(vec![ix])).await { g.admin = nk; } } }
+                match rng.below(3) { 0 => { let ix = s.rd_configure(&g.admin, RdSetting::DebtAccountant(nk.clone())); if s.op(tx(vec![ix])).await { g.prev.push(g.debt_acc.clone()); g.debt_acc = nk; } }
+                                      1 => { let ix = s.rd_configure(&g.admin, RdSetting::RewardsAccountant(nk.clone())); if s.op(tx(vec![ix])).await { g.prev.push(g.rew_acc.clone()); g.rew_acc = nk; } }
+                                      _ => { let ix = s.rd_set_admin(&g.up, &nk); if s.op(tx(vec![ix])).await { g.prev.push(g.admin.clone()); g.admin = nk; } } }
                 continue; }
+            99..=105 => { authority_probe(&mut s, &mut rng, &mut g).await; continue; }
             98 => { // program-data look-alikes: loader-owned at a foreign address, or canonical bytes under another owner
                 let attacker = g.users[11].clone(); let fake = K::User(710 + rng.below(2));
                 let owner = if rng.chance(2, 3) { K::Loader } else { rng.pick(&[K::System, K::Rogue(1)]).clone() };
@@ -253,7 +257,7 @@ async fn run(mut s: Sim, mut rng: Rng, len: usize) -> Sim {
                 s.op(tx(vec![ix])).await; continue; }
             93 => { let ci = rng.below(g.svcs.len() as u64) as usize; let v = g.svcs[ci].clone();
                     match rng.below(4) {
-                        0 => { let m = rng.pick(&g.users).clone(); let ix = s.rd_set_rewards_manager(&g.cmgr, &v, &m); if s.op(tx(vec![ix])).await { g.mgrs[ci] = m; } continue; }
+                        0 => { let m = rng.pick(&g.users).clone(); let ix = s.rd_set_rewards_manager(&g.cmgr, &v, &m); if s.op(tx(vec![ix])).await { g.prev.push(g.mgrs[ci].clone()); g.mgrs[ci] = m; } continue; }
                         1 => s.rd_configure_contributor_block(&g.mgrs[ci].clone(), &v, rng.chance(1, 2)),
                         2 => { let who = rng.pick(&g.users).clone(); s.rd_configure_contributor_block(&who, &v, true) }
                         _ => { let n = rng.range(0, 9) as usize; let rec: Vec<(K, u16)> = (0..n).map(|j| (K::User(300 + j as u64), if n > 0 { (10_000 / n as u16) + if j == 0 { 10_000 % n as u16 } else { 0 } } else { 0 })).collect();
@@ -304,7 +308,10 @@ async fn go(s: &mut Sim, rng: &mut Rng, g: &mut G, ix: crate::sim::Ix) -> bool {
     if rng.chance(1, 15) { // a signer of the honest instruction replaced by another wallet that does sign
         if let Some(pos) = ix.metas.iter().position(|m| m.1) { let other = rng.pick(&g.users).clone(); let f = ix.clone().with_key(pos, &other); s.op(tx(vec![f])).await; }
     }
-    s.op(tx(vec![ix])).await
+    let replayable = ix.term.contains("RPayDebt") || ix.term.contains("RWriteOff") || ix.term.contains("RDistributeRewards");
+    let ok = s.op(tx(vec![ix.clone()])).await;
+    if ok && replayable && rng.chance(1, 3) { s.op(tx(vec![ix])).await; }   // the same leaf again: must be refused
+    ok
 }
 
 /// one honest step that the tracked state says is enabled (the bank decides; the tracking is only used to aim)
@@ -336,7 +343,7 @@ async fn driver_step(s: &mut Sim, rng: &mut Rng, g: &mut G) -> bool {
     if !ep.debt_final { let ix = s.rd_finalize_debt(&g.debt_acc, ep.e, &g.payer); if go(s, rng, g, ix).await { g.eps[i].debt_final = true; } return true; }
     let t = ep.debt.clone().unwrap();
     let unsettled: Vec<u32> = (0..t.leaves.len() as u32).filter(|x| !ep.settled.contains(x)).collect();
-    if !ep.swept && !unsettled.is_empty() && rng.chance(3, 4) {
+    if !unsettled.is_empty() && (ep.swept && rng.chance(1, 2) || !ep.swept && rng.chance(3, 4)) {
         let idx = *rng.pick(&unsettled);
         let Leaf::Debt { node, amount } = t.leaves[idx as usize].clone() else { return false };
         let poor = node == g.nodes[6] || node == g.nodes[7];
@@ -383,4 +390,35 @@ async fn driver_step(s: &mut Sim, rng: &mut Rng, g: &mut G) -> bool {
     let ix = s.rd_distribute(ep.e, &contributor, &g.relayer, &recs, unit_share, packed & 0x3fff_ffff, &p);
     if go(s, rng, g, ix).await { g.eps[i].distributed.insert(idx); } else { g.eps[i].distributed.insert(idx); }
     true
+}
+
+/// Authority probes (C07): a privileged instruction presented by somebody who is not (or no longer) the role holder —
+/// another signer, a previous holder after rotation, the right key without a signature, the default key.
+async fn authority_probe(s: &mut Sim, rng: &mut Rng, g: &mut G) {
+    let impostor = match rng.below(4) { 0 if !g.prev.is_empty() => rng.pick(&g.prev).clone(), 1 => K::System, _ => rng.pick(&g.users).clone() };
+    let ne = g.eps.len() as u64;
+    let e = if ne == 0 { 0 } else { rng.below(ne) };
+    let ci = rng.below(g.svcs.len() as u64) as usize; let svc = g.svcs[ci].clone();
+    let strip = rng.chance(1, 4);   // right key, no signature
+    let kind = rng.below(12);
+    let who = |right: &K| if strip { right.clone() } else { impostor.clone() };
+    let (ix, pos) = match kind {
+        0 => (s.rd_configure(&who(&g.admin), RdSetting::CalcGrace(2)), 1usize),
+        1 => (s.rd_configure(&who(&g.admin), RdSetting::Paused(rng.chance(1, 2))), 1),
+        2 => (s.rd_initialize_distribution(&who(&g.debt_acc), &g.payer, ne), 1),
+        3 => { let t = s.def_tree(0, vec![Leaf::Debt { node: g.nodes[0].clone(), amount: 5 }]); (s.rd_configure_debt(&who(&g.debt_acc), e, 1, 5, t.root), 1) }
+        4 => (s.rd_finalize_debt(&who(&g.debt_acc), e, &g.payer), 1),
+        5 => { let t = s.def_tree(1, vec![Leaf::Reward { contributor: svc.clone(), unit_share: 1_000_000_000, packed: 0 }]); (s.rd_configure_rewards(&who(&g.rew_acc), e, 1, t.root), 1) }
+        6 => (s.rd_set_rewards_manager(&who(&g.cmgr), &svc, &impostor), 1),
+        7 => (s.rd_configure_contributor_block(&who(&g.mgrs[ci].clone()), &svc, rng.chance(1, 2)), 2),
+        8 => (s.rd_configure_contributor_recipients(&who(&g.mgrs[ci].clone()), &svc, &[(K::User(300), 10_000)]), 2),
+        9 => (s.rd_set_admin(&who(&g.up), &impostor), 1),
+        10 => (s.rd_migrate(&who(&g.up)), 1),
+        _ => { let ep = g.eps.iter().find(|x| x.debt.is_some()).cloned();
+               match ep { Some(ep) => { let t = ep.debt.unwrap(); let Leaf::Debt { node, amount } = t.leaves[0].clone() else { return };
+                                        let Some(p) = s.proof(&t, 0) else { return }; (s.rd_write_off(&who(&g.debt_acc), ep.e, &node, ep.e, amount, &p), 1) }
+                          None => return } }
+    };
+    let ix = if strip { ix.with_signer(pos, false) } else { ix };
+    s.op(tx(vec![ix])).await;
 }
